@@ -355,12 +355,17 @@ func (sc *c20Scenario) runPure(s *simrt.Sim, h *Hist) {
 		{"CompData(int) of another type", fpgo.NewCompData(fpgo.DefProduct(reflect.Int), 5), [6]int{0, 0, 0, 0, 0}},
 	}
 	h.Do("main", "pattern-matching", p.Patterns, func() (interface{}, error) {
+		// ONE PatternMatching object per pattern list is reused for every probe (as a long-lived matcher would be);
+		// Either builds a fresh one per call. The probes are walked in a per-run rotation.
+		var shared *fpgo.PatternMatching
+		applied := 0 // effects applied by the current call (the patterns of the shared matcher outlive one probe)
+		rot := (p.TrampN*7 + p.Arity) % len(probes)
+		probes = append(append([]probe{}, probes[rot:]...), probes[:rot]...)
 		for _, pr := range probes {
 			if cd, isCD := pr.v.(*fpgo.CompData); isCD && cd == nil && !strings.HasPrefix(pr.name, "typed nil") {
 				bad("comp-data", "NewCompData-nil-for-matching-arguments", "NewCompData returned nil for arguments that match the declared type: "+pr.name)
 				continue
 			}
-			applied := 0
 			mk := func(kind int) fpgo.Pattern {
 				eff := func(v interface{}) interface{} {
 					applied++
@@ -416,7 +421,11 @@ func (sc *c20Scenario) runPure(s *simrt.Sim, h *Hist) {
 				func() {
 					defer func() { pan = recover() }()
 					if via == "MatchFor" {
-						got = fpgo.DefPattern(pats...).MatchFor(pr.v)
+						if shared == nil {
+							pm := fpgo.DefPattern(pats...)
+							shared = &pm
+						}
+						got = shared.MatchFor(pr.v)
 					} else {
 						got = fpgo.Either(pr.v, pats...)
 					}
